@@ -338,6 +338,14 @@ def check_helpers(sname, r):
                 walk(d, token.fields[name], f'{where}.{name}')
 
     walk(sc, tok, '')
+    # the same queries on message types whose equal sub-messages are ONE token object used by several fields, and on a
+    # message built for the purpose: two fields of one vector type, twice, one level down (a Twist in a pair of Twists)
+    walk(sc, schemas.to_token(sc, 'M', share={}), ' [shared tokens]')
+    vec = schemas.msg({'x': 'N', 'y': 'N', 'z': 'N'})
+    twist = schemas.msg({'linear': vec, 'angular': vec, 'ok': 'B'})
+    pair = schemas.msg({'first': twist, 'second': twist, 'third': vec, 'all': schemas.arr(twist), 's': 'S'}, {'K': ('N', 1)})
+    walk(pair, schemas.to_token(pair, 'P', share={}), ' [pair of twists, shared tokens]')
+    walk(pair, schemas.to_token(pair, 'P'), ' [pair of twists]')
     return problems
 
 
@@ -469,7 +477,7 @@ def replay(w):
 def describe(tier):
     b = bounds(tier)
     return {
-        'rule': f"schemas {list(b['schemas'])}: every valid accessor chain (depth <= {b['path_depth']}, rooted at the current message and at an alias; plus in-range literal indices) and every chain invalid in exactly one way (unknown field, field access on a primitive / array, index on a primitive / message, literal index = length and length + 1) placed at each of up to 16 nesting sites (top level, under not/and, arithmetic, range bound, set element, function argument, quantifier body, quantifier range domain, boolean and string sites, array sites: in / len / quantifier domain, index expression, arithmetic inside an index, index on an inner accessor of a chain, an array of the other message indexed by this message's reference) - sites whose required type differs from the declared one give the type-mismatch cases - and at 5 property positions / 5 alias bindings (incl. aliases bound inside event disjunctions; the aliased message has a different message type); expectation from the independent resolver; the raised error must name the offending field, index or path. Plus leaf_fields / get_type_of / contains_name on every (nested) message of all 6 schemas, the 8 predefined integer tokens, and constructor grids (169 min/max pairs incl. integers beyond 2**53 that differ by one, 6 array lengths, 15 enumerated-value combinations, all 128 type sets for TypeToken). Every case is checked twice: on a fresh property object, and on a second object after it was checked against two decoy schemas (same field tree with every leaf type changed and arrays cut to length 1; a schema without these fields) - the verdicts must agree. Positions: the event that carries the path is placed in every scope position x scope kind x pattern kind (55 own-message positions: pattern events under 4 scope kinds x 8 pattern slots, activators and terminators under 5 pattern kinds, disjunction members) and alias-rooted paths in 30 positions (alias from the activator under every pattern slot, in the terminator under every pattern kind, from triggers / behaviours, from and inside disjunctions).",
+        'rule': f"schemas {list(b['schemas'])}: every valid accessor chain (depth <= {b['path_depth']}, rooted at the current message and at an alias; plus in-range literal indices) and every chain invalid in exactly one way (unknown field, field access on a primitive / array, index on a primitive / message, literal index = length and length + 1) placed at each of up to 16 nesting sites (top level, under not/and, arithmetic, range bound, set element, function argument, quantifier body, quantifier range domain, boolean and string sites, array sites: in / len / quantifier domain, index expression, arithmetic inside an index, index on an inner accessor of a chain, an array of the other message indexed by this message's reference) - sites whose required type differs from the declared one give the type-mismatch cases - and at 5 property positions / 5 alias bindings (incl. aliases bound inside event disjunctions; the aliased message has a different message type); expectation from the independent resolver; the raised error must name the offending field, index or path. Plus leaf_fields / get_type_of / contains_name on every (nested) message of all 6 schemas, again with equal sub-messages being one token object shared by several fields, and on a pair of twists (two vector fields of one type, two levels), the 8 predefined integer tokens, and constructor grids (169 min/max pairs incl. integers beyond 2**53 that differ by one, 6 array lengths, 15 enumerated-value combinations, all 128 type sets for TypeToken). Every case is checked twice: on a fresh property object, and on a second object after it was checked against two decoy schemas (same field tree with every leaf type changed and arrays cut to length 1; a schema without these fields) - the verdicts must agree. Positions: the event that carries the path is placed in every scope position x scope kind x pattern kind (55 own-message positions: pattern events under 4 scope kinds x 8 pattern slots, activators and terminators under 5 pattern kinds, disjunction members) and alias-rooted paths in 30 positions (alias from the activator under every pattern slot, in the terminator under every pattern kind, from triggers / behaviours, from and inside disjunctions).",
         'bounds': {'path_depth': b['path_depth'], 'schemas': len(b['schemas'])},
         'exhaustive': True,
         'assumptions': ['resolver and field-tree walk in hplmc/schemas.py are the reference'],
